@@ -108,6 +108,9 @@ type Exec struct {
 	rebinds map[ssa.Value][]rebind
 	inlines int
 	loopKs  []Term // iteration indices of the loops of this activation (instantiation points)
+	nRec       int    // recursive call sites seen
+	boundFacts []Term // facts assumed for every value of the single bound variable (type invariants of loaded values)
+	contFacts  []Term // the boundFacts of the last contOf, with @J@ for the iteration variable
 	concatLens []Term // lengths of the left operands of append(xs, ys...) with a symbolic ys
 	existsInvMemo int // 0 unknown, 1 no, 2 yes
 	reinst    bool   // an assumed invariant is being re-instantiated (its witnesses are not registered again)
@@ -216,6 +219,9 @@ func (e *Exec) assume(t Term) {
 		}
 	}
 	e.g.assert(fmt.Sprintf("(forall (%s) %s)", strings.Join(ps, " "), implies(and(gs...), t)))
+	if len(e.bound) == 1 {
+		e.boundFacts = append(e.boundFacts, t) // also instantiated explicitly where the loop summary is
+	}
 }
 
 // typeInv: facts true of every Go value of type t.
@@ -812,7 +818,14 @@ func (e *Exec) defVal(v ssa.Value, term Term) {
 	t := e.def(v.Name(), s, term)
 	e.vals[v] = val{t: t}
 	if e.parent != nil {
-		return // quantified (loop-summary) context: type invariants are facts we can do without
+		// quantified (loop-summary) context: the type invariant is not asserted as a quantified fact, only remembered so that
+		// it can be stated where the summary is instantiated explicitly
+		if len(e.bound) == 1 {
+			if inv := e.typeInv(v.Type(), t); inv != "true" {
+				e.boundFacts = append(e.boundFacts, implies(e.reach[e.curBlock], inv))
+			}
+		}
+		return
 	}
 	if inv := e.typeInv(v.Type(), t); inv != "true" {
 		e.assume(implies(e.reach[e.curBlock], inv))
